@@ -129,6 +129,9 @@ package spiffe
 //@   at call ecdsa.GenerateKey#0 ghost nw = 0
 //@   at before call x509.CreateCertificateRequest#0 assert [C19.fetch.csr.key] arg2 == box(gkey, "*crypto/ecdsa.PrivateKey")
 //@   at call RequestSVIDFn#0 ghost gchain = res0
+// the certificates the requester hands back are nil or came out of x509.ParseCertificate (spiffe_libs.spec assume-text):
+// pem.EncodeX509Chain checks their signatures, and the standard library dereferences nil on a hand-built Certificate
+//@   at call RequestSVIDFn#0 assume forall j :: (0 <= j && j < len(res0) && res0[j] != nil) ==> wfcert(res0[j])
 //@   at before call RequestSVIDFn#0 assert [C19.fetch.csr.sent] arg1 == call_CreateCertificateRequest_0_csr
 //@   at before call pem.EncodePrivateKey#0 assert [C19.fetch.pem.key] arg0 == box(gkey, "*crypto/ecdsa.PrivateKey")
 //@   at call pem.EncodePrivateKey#0 ghost gpk = res0
